@@ -283,7 +283,12 @@ bool ecdsa_special(const Ec *k, int kind, const B &tsel, const B &rsel, B &diges
             BN_nnmod(r, r, i.n, ctx()); if (BN_is_zero(r)) continue;
             BN_mod_mul(e, r, d, i.n, ctx());
         } else {                    // any r in [1,n-1], e = -r*d, s = e/t  (u1 = t, u2*d = -t)
-            BIGNUM *rs = tobn(rsel); BN_add_word(rs, (BN_ULONG) tries); BN_nnmod(rs, rs, nm1, ctx()); BN_add_word(rs, 1); if (tries & 1) BN_sub(rs, i.n, rs); BN_copy(r, rs); BN_free(rs);
+            B seedr = rsel;
+            if (tries) {    // fresh pseudo-random r per retry (r+1, n-r, ... walk in lock-step with e when d is close to n/2)
+                B in = rsel; in.push_back((uint8_t) tries); in.push_back(0); seedr = hash(H_SHA512, in.data(), in.size());
+                in.back() = 1; B h2 = hash(H_SHA512, in.data(), in.size()); seedr.insert(seedr.end(), h2.begin(), h2.end());
+            }
+            BIGNUM *rs = tobn(seedr); BN_nnmod(rs, rs, nm1, ctx()); BN_add_word(rs, 1); BN_copy(r, rs); BN_free(rs);
             BN_mod_mul(e, r, d, i.n, ctx()); BN_sub(e, i.n, e); BN_nnmod(e, e, i.n, ctx());
         }
         if (BN_is_zero(e) || BN_cmp(e, lim) >= 0) continue;
